@@ -202,6 +202,23 @@ def rule_cmp_multiedge(ctx: Ctx) -> None:
                  construct="edge_match: first parallel edge only")
     else:
         ctx.ok("cmp.multiedge", m, fn, what="edge_match compares all parallel edges")
+    # the reader keeps each edge's (role at source, role at destination) pair together: flattening the pairs into single roles makes
+    # ('c','t') and ('t','c') — a two-qubit gate and the same gate reversed — indistinguishable
+    flat = []
+    for comp in [x for x in ast.walk(fn) if isinstance(x, (ast.ListComp, ast.GeneratorExp, ast.SetComp))]:
+        for g in comp.generators:
+            if isinstance(g.iter, ast.Subscript) and isinstance(g.iter.slice, ast.Constant) and g.iter.slice.value == "control_target":
+                flat.append(g.iter)
+    single = [x for x in ast.walk(fn) if isinstance(x, ast.Subscript) and isinstance(x.value, ast.Subscript) and isinstance(x.value.slice, ast.Constant)
+              and x.value.slice.value == "control_target" and isinstance(x.slice, ast.Constant)]
+    if flat or (single and len({x.slice.value for x in single}) < 2):
+        site = (flat or single)[0]
+        ctx.fail("cmp.multiedge", m, site,
+                 f"edge_match takes the `control_target` attribute apart (`{short(site, 60)}`) and compares single roles: the attribute is the pair "
+                 f"(role at the source operation, role at the destination operation) of one edge, and only pairs tell CNOT(a,b);CNOT(b,a) from "
+                 f"CNOT(a,b);CNOT(a,b)", func="circuit_is_isomorphic.edge_match", construct="edge_match: role pairs flattened")
+    else:
+        ctx.ok("cmp.multiedge", m, fn, what="edge_match compares each edge's role pair as a unit")
     ad = repo.anchor(CMP, "add_control_target_to_dag")
     ctx.touch(m, ad)
     env = {}
@@ -234,6 +251,38 @@ def rule_cmp_multiedge(ctx: Ctx) -> None:
                      f"the control_target attribute of an edge is `{short(v, 80)}`; it must record the register's role in BOTH operations the edge "
                      f"joins, otherwise CNOT(a,b);CNOT(a,b) and CNOT(a,b);CNOT(b,a) have the same multiset of edge roles",
                      func="add_control_target_to_dag", construct=f"add_control_target_to_dag: attribute {short(v, 60)}")
+
+
+def rule_cmp_every_step(ctx: Ctx) -> None:
+    """cmp.every-step: direct() walks every register wire of both circuits in lock step and answers False at the first position where
+    the two operations differ.  Every step of the walk must reach that comparison: a `continue` / early exit that skips it for some
+    kind of operation means the *order* of such operations along the wire is no longer compared."""
+    repo = ctx.repo
+    m = repo.module(CMP)
+    fn = repo.anchor(CMP, "direct")
+    ctx.touch(m, fn)
+    walks = [w for w in ast.walk(fn) if isinstance(w, ast.While)]
+    if len(walks) != 1:
+        raise AnalysisError("direct(): the wire walk (while loop) was not found")
+    w = walks[0]
+    # the comparison: an If inside the loop with a `return False` arm whose test looks at both operations
+    ops_ = [norm(a.targets[0]) for a in ast.walk(w) if isinstance(a, ast.Assign) and isinstance(a.value, ast.Subscript)
+            and isinstance(a.value.slice, ast.Constant) and a.value.slice.value == "op"]
+    cmp_ifs = [i for i in ast.walk(w) if isinstance(i, ast.If) and any(isinstance(r, ast.Return) and isinstance(r.value, ast.Constant) and r.value.value is False
+                                                                        for r in ast.walk(i))]
+    if len(ops_) < 2 or not cmp_ifs:
+        raise AnalysisError("direct(): the per-step comparison was not found")
+    target = cmp_ifs[0]
+    ok = flow.must_pass(w.body, lambda node: node is target.test)
+    if ok:
+        ctx.ok("cmp.every-step", m, target, what="every step of the wire walk reaches the comparison")
+    else:
+        skip = next((x for x in ast.walk(w) if isinstance(x, (ast.Continue, ast.Break)) ), None)
+        ctx.fail("cmp.every-step", m, skip or target,
+                 "direct() has a path through the wire walk that does not compare the two operations at that position"
+                 + (f" (`{short(skip)}` at line {skip.lineno})" if skip is not None else "") +
+                 ": operations skipped there can be re-ordered along the wire without the comparison noticing (two CNOTs with different controls "
+                 "on one target, with a Hadamard between them)", func="direct", construct="direct: a step of the walk skips the comparison")
 
 
 NORMALISERS = ("unwrap_nodes", "remove_identity")
@@ -364,12 +413,15 @@ def run(ctx: Ctx) -> None:
     rule_cmp_fields(ctx)
     rule_cmp_roles(ctx)
     rule_cmp_multiedge(ctx)
+    rule_cmp_every_step(ctx)
     rule_cmp_normalise(ctx)
     ctx.floor("cmp.fields", 10)
     ctx.floor("cmp.normalise", 5)
 
 
 KNOCKOUTS = [
+    Knockout("direct-skips-pair-gates-on-target-wire", CMP, sub_once("                control_match = (\n                    op1.q_registers_type == op2.q_registers_type", "                if type(op1) is type(op2) and len(op1.q_registers) == 2 and reg == f\"{op1.q_registers_type[1]}{op1.q_registers[1]}\":\n                    continue\n                control_match = (\n                    op1.q_registers_type == op2.q_registers_type"), "cmp.every-step", "skips the comparison"),
+    Knockout("edge-match-flattens-role-pairs", CMP, sub_once('        roles1 = sorted(str(attr["control_target"]) for attr in e1.values())', '        roles1 = sorted(str(role) for attr in e1.values() for role in attr["control_target"])'), "cmp.multiedge", "flattened"),
     Knockout("ged-truthiness", CMP, sub_once("    return sim == 0\n", "    return not sim\n"), "ged.zero", "truthiness"),
     Knockout("multiedge-first-only", CMP,
              sub_once("        roles1 = sorted(str(attr[\"control_target\"]) for attr in e1.values())\n        roles2 = sorted(str(attr[\"control_target\"]) for attr in e2.values())\n        return roles1 == roles2",
